@@ -222,6 +222,12 @@ Proof. exact source_liftover_is_specification. Qed.
 Theorem C05_prev_index_matches_source : forall a i v, k_get_prev_index a i v = u8_prev_index a i v.
 Proof. exact k_get_prev_index_eq. Qed.
 
+(* ... and of a REF-coordinate variant (Variant.any_pos with the bound method ref_pos_overlaps_var handed over as a callback) *)
+Theorem C05_ref_var_overlap_matches_source : forall g v,
+  ref_var_overlaps_var g (v_pos v) (zlen (v_ref v)) <> Err OtherErr ->
+  k_gpo_ref_var_overlaps_var (kgpo_of g) v = ref_var_overlaps_var g (v_pos v) (zlen (v_ref v)).
+Proof. exact k_gpo_ref_var_overlaps_var_eq. Qed.
+
 (* the recorded finding read off the translated source: one base on an insertion point is not reported, two bases over it are *)
 Theorem C05_alt_single_base_insertion_point_in_source :
   exists g, from_var_stats [mkVS 13 0 2] (mkRange 10 20) = Ok g /\
@@ -282,6 +288,7 @@ Print Assumptions C05_masks_match_source_with_errors.
 Print Assumptions C05_alt_to_ref_matches_source.
 Print Assumptions C05_ref_to_alt_matches_source.
 Print Assumptions C05_alt_var_overlap_matches_source.
+Print Assumptions C05_ref_var_overlap_matches_source.
 Print Assumptions C05_alt_single_base_insertion_point_in_source.
 Print Assumptions C05_clamp_matches_source.
 Print Assumptions C05_from_var_stats_matches_source.
